@@ -204,7 +204,7 @@ func judge(p *colPlan, obs [][]snapRec, final view) (vs []colViol, partial int, 
 				break
 			}
 		}
-		if v.total != expTotal && !v.total.zero() {
+		if where != "final" && v.total != expTotal && !v.total.zero() {
 			partial++
 		}
 	}
@@ -325,7 +325,7 @@ func runCollector(e *core.Env) {
 	rec := e.Rec
 	rec.Rule("collector: one case = one short run of W (2..32) goroutines executing Collect* scripts (sessions with boundary-biased amounts for the anonymous user, up to 6 named users and up to 3 users that first appear in the second phase of the scripts; the two reports of a UDP session go to independent goroutines) against S (1..4) goroutines executing Snapshot/SnapshotAndReset scripts on one real collector; " +
 		fmt.Sprint(repeats) + " consecutive cases share the scripts and differ in yield placement. class = (writers, observers, resets, number of answers that showed a strict part of the traffic, where a late user was first seen); only runs in which at least one answer showed a strict part of the traffic (a snapshot really ran between Collect calls) are counted as a class. distinct_interleaving_outcomes = distinct (scripts, vector of per-answer session counts) pairs")
-	n := e.N(6000, 60000)
+	n := e.N(4000, 40000)
 	var mu sync.Mutex
 	outcomes := map[int]map[uint64]bool{}
 	core.Parallel(e, "collector", n, 4, func(i int) {
